@@ -230,6 +230,35 @@ fn laws(path: &str) -> Value {
             none_collisions += 1;
         }
     }
+    // as_ptr only BORROWS: the count does not move even for a moment (another thread looking at the count meanwhile, or a
+    // concurrent last release, would see the difference). One thread calls as_ptr in a loop, this one samples the count.
+    {
+        use std::sync::atomic::{AtomicBool, Ordering};
+        let a = Arc::new(7usize);
+        let oa: Option<Arc<usize>> = Some(Arc::new(8usize));
+        let stop = Arc::new(AtomicBool::new(false));
+        let (a2, oa2, stop2) = (a.clone(), oa.clone(), stop.clone());
+        let worker = std::thread::spawn(move || {
+            let mut n = 0usize;
+            while !stop2.load(Ordering::Relaxed) && n < 3_000_000 {
+                std::hint::black_box(<Arc<usize> as RefCnt>::as_ptr(&a2));
+                std::hint::black_box(<Option<Arc<usize>> as RefCnt>::as_ptr(&oa2));
+                n += 1;
+            }
+        });
+        let mut seen = (2usize, 2usize);
+        let t0 = std::time::Instant::now();
+        while t0.elapsed().as_millis() < 150 && !worker.is_finished() {
+            seen.0 = seen.0.max(Arc::strong_count(&a));
+            seen.1 = seen.1.max(Arc::strong_count(oa.as_ref().unwrap()));
+        }
+        stop.store(true, Ordering::Relaxed);
+        let _ = worker.join();
+        if seen != (2, 2) && failures.len() < 20 {
+            failures.push(json!({"why": format!("as_ptr moves the strong count while it runs (Arc: up to {}, Option<Arc>: up to {}, expected 2): it must only borrow", seen.0, seen.1), "program": {"kind": "as_ptr_transient"}}));
+        }
+        steps += 1;
+    }
     json!({"programs": programs, "runs": runs, "steps": steps, "failures": failures, "zst_collisions": none_collisions})
 }
 
